@@ -76,6 +76,8 @@ pub enum BStep {
     Wait(usize),
     /// the body stream fails here
     Err,
+    /// `times` chunks of `len` generated on the fly (large bodies without holding them)
+    Gen { len: usize, times: usize },
 }
 
 #[derive(Clone, Debug, PartialEq)]
@@ -164,6 +166,9 @@ pub struct World {
     /// live bytes delivered to handlers (for C05 accounting)
     pub body_bytes_delivered: u64,
     pub resp_bytes_pulled: u64,
+    /// keep request / response body bytes in the records (off for the memory-bound workloads,
+    /// where only counts are kept so that the harness itself stays O(1))
+    pub record_bodies: bool,
 }
 
 pub type W = Rc<RefCell<World>>;
@@ -180,6 +185,7 @@ pub fn world(progs: Vec<Prog>, ngates: usize) -> W {
         io: None,
         body_bytes_delivered: 0,
         resp_bytes_pulled: 0,
+        record_bodies: true,
     }))
 }
 
@@ -269,10 +275,22 @@ impl Stream for ScriptStream {
                     let idx = self.idx;
                     let mut wd = self.w.borrow_mut();
                     wd.resp_bytes_pulled += d.len() as u64;
+                    let rec = wd.record_bodies;
                     let r = &mut wd.reqs[idx];
-                    r.resp_yielded.extend_from_slice(&d);
-                    r.resp_chunks.push(d.len());
+                    if rec {
+                        r.resp_yielded.extend_from_slice(&d);
+                        r.resp_chunks.push(d.len());
+                    }
                     return Poll::Ready(Some(Ok(Bytes::from(d))));
+                }
+                BStep::Gen { len, times } => {
+                    if times == 0 {
+                        self.steps.pop_front();
+                        continue;
+                    }
+                    self.steps[0] = BStep::Gen { len, times: times - 1 };
+                    self.w.borrow_mut().resp_bytes_pulled += len as u64;
+                    return Poll::Ready(Some(Ok(Bytes::from(vec![b'g'; len]))));
                 }
                 BStep::Wait(g) => {
                     let mut gw = GateWait { w: self.w.clone(), g };
@@ -357,8 +375,11 @@ async fn read_body(w: W, idx: usize, mut pl: Payload, limit: Option<usize>, gate
                 n += 1;
                 let mut wd = w.borrow_mut();
                 wd.body_bytes_delivered += chunk.len() as u64;
+                let rec = wd.record_bodies;
                 let r = &mut wd.reqs[idx];
-                r.body.extend_from_slice(&chunk);
+                if rec {
+                    r.body.extend_from_slice(&chunk);
+                }
                 r.body_chunks += 1;
             }
             Some(Err(e)) => {
@@ -521,6 +542,7 @@ impl Prog {
                 BStep::Data(d) => json!({"data": d.len(), "fill": d.first().copied().unwrap_or(0)}),
                 BStep::Wait(g) => json!({"wait": g}),
                 BStep::Err => json!("err"),
+                BStep::Gen { len, times } => json!({"gen": [len, times]}),
             })
             .collect();
         json!({
@@ -567,6 +589,8 @@ impl Prog {
                             BStep::Err
                         } else if let Some(g) = s["wait"].as_u64() {
                             BStep::Wait(g as usize)
+                        } else if s.get("gen").is_some() {
+                            BStep::Gen { len: s["gen"][0].as_u64().unwrap_or(0) as usize, times: s["gen"][1].as_u64().unwrap_or(0) as usize }
                         } else {
                             let n = s["data"].as_u64().unwrap_or(0) as usize;
                             BStep::Data(fill_data(n, s["fill"].as_u64().unwrap_or(0) as u8))
